@@ -69,6 +69,13 @@ func lexSpec(src string) ([]tok, error) {
 			for j < len(src) && (unicode.IsLetter(rune(src[j])) || unicode.IsDigit(rune(src[j])) || src[j] == '_' || src[j] == '$') {
 				j++
 			}
+			// name#k : k-th local of that name
+			if j+1 < len(src) && src[j] == '#' && unicode.IsDigit(rune(src[j+1])) {
+				j++
+				for j < len(src) && unicode.IsDigit(rune(src[j])) {
+					j++
+				}
+			}
 			out = append(out, tok{"id", src[i:j]})
 			i = j
 			continue
